@@ -113,6 +113,54 @@ def is_decoy(prots):
     return _all_contain(prots, "REV__") or _all_contain(prots, "rev_")
 
 
+# ------------------------------------------------------------------------------------------------
+# observation points (audit 3, X1/X2): the wrappers accept ANY calling convention (positional, keyword, mixed), read the
+# values through inspect.signature(orig).bind and forward the call unchanged.  What cannot be read is recorded as None
+# ("not observed") and ends up on the correspondence side (impl view vs model view) - never in an oracle, never as an
+# exception out of run_impl.
+# ------------------------------------------------------------------------------------------------
+def bound_values(orig, a, k, n):
+    """the first n parameters of `orig` as the call (*a, **k) binds them, or None if they cannot be told"""
+    import inspect
+
+    try:
+        ba = inspect.signature(orig).bind(*a, **k)
+        ba.apply_defaults()
+        vals = list(ba.arguments.values())
+    except (TypeError, ValueError):
+        vals = list(a)
+    return vals[:n] if len(vals) >= n else None
+
+
+def cutoff_spy(orig, sink, with_level=False):
+    """wrapper of fdr.calc_post_err_prob_cutoff: appends the encoded list handed over (with the level if asked for), or
+    None where it could not be read, to `sink`; the call itself goes on unchanged"""
+
+    def spy(*a, **k):
+        rec = None
+        try:
+            vals = bound_values(orig, a, k, 2)
+            if vals is not None and iter(vals[0]) is not vals[0]:  # a one-shot iterator is left to the callee
+                rec = ([encf(p) for p in vals[0]], encf(vals[1]))
+                if not with_level:
+                    rec = rec[0]
+        except Exception:  # noqa: BLE001 - an observation that fails is "not observed"
+            rec = None
+        sink.append(rec)
+        return orig(*a, **k)
+
+    return spy
+
+
+def last_seen(sink):
+    return next((r for r in reversed(sink) if r is not None), None)
+
+
+def safe_flag(obj, name):
+    v = getattr(obj, name, None)
+    return None if v is None else bool(v)
+
+
 def _levels_between(lists):
     """candidate levels: the running means of the given value lists, and the midpoints between neighbouring ones"""
     ms = set()
@@ -315,29 +363,25 @@ def run_collect(case):
     st.set_peptide_counts_per_protein(pil)
     handed = []
     orig = fdr_mod.calc_post_err_prob_cutoff
-
-    def spy(peps, lvl):
-        peps = list(peps)
-        handed.append(([encf(p) for p in peps], encf(lvl)))
-        return orig(peps, lvl)
-
-    fdr_mod.calc_post_err_prob_cutoff = spy
+    fdr_mod.calc_post_err_prob_cutoff = cutoff_spy(orig, handed, with_level=True)
     try:
+        # the stage on its own: what it raises is classified by exception TYPE at THIS call site, never by message text
         try:
             infos = st.collect_peptide_scores_per_protein(pg, pil, decf(case["level"]), suppress_missing_protein_warning=bool(case["suppress"]))
-        except IndexError as e:
-            if case["razor"] and "list index out of range" in str(e):
+        except IndexError:
+            if case["razor"]:
                 return {"err": "razor_no_proteins"}
             raise
         except Exception as e:
-            if type(e) is Exception and str(e).startswith("Could not find any of the proteins"):
+            if type(e) is Exception:
                 return {"err": "unknown_protein"}
             raise
     finally:
         fdr_mod.calc_post_err_prob_cutoff = orig
-    return {"handed": handed[-1][0] if handed else None, "level_seen": handed[-1][1] if handed else None, "ncalls": len(handed),
+    seen = last_seen(handed)
+    return {"handed": seen[0] if seen else None, "level_seen": seen[1] if seen else None, "ncalls": len(handed),
             "cutoff": encf(getattr(st, "peptide_score_cutoff", float("nan"))), "evidence": _canon_evidence(infos),
-            "flags": [bool(st.use_shared_peptides), bool(st.use_razor)]}
+            "flags": [safe_flag(st, "use_shared_peptides"), safe_flag(st, "use_razor")]}
 
 
 def run_collect_pipeline(case):
@@ -353,56 +397,63 @@ def run_collect_pipeline(case):
     finally:
         shutil.rmtree(tmp, ignore_errors=True)
     pil = {p: (decf(s), list(pr)) for p, s, pr in case["pil"]}
-    handed, calls = [], []
+    handed, calls, in_collect = [], [], []
     orig_cut = fdr_mod.calc_post_err_prob_cutoff
     orig_collect = ProteinScoringStrategy.collect_peptide_scores_per_protein
 
-    def spy(peps, lvl):
-        peps = list(peps)
-        handed.append([encf(p) for p in peps])
-        return orig_cut(peps, lvl)
-
-    def collect(self, protein_groups, peptide_info_list, peptide_qval_cutoff, suppress_missing_protein_warning=False):
-        rec = {"groups": [list(g) for g in protein_groups.protein_groups], "suppress": bool(suppress_missing_protein_warning),
-               "level": encf(peptide_qval_cutoff),
-               "pil": [[p, encf(s), list(pr)] for p, (s, pr) in peptide_info_list.items()]}
+    def collect(self, *a, **k):
+        vals = bound_values(orig_collect, (self,) + a, k, 5)
         n0 = len(handed)
-        ret = orig_collect(self, protein_groups, peptide_info_list, peptide_qval_cutoff, suppress_missing_protein_warning)
-        rec.update({"handed": handed[-1] if len(handed) > n0 else None, "ncalls": len(handed) - n0,
+        try:
+            ret = orig_collect(self, *a, **k)
+        except Exception as e:  # noqa: BLE001 - remembered (call site = this stage) and handed on
+            in_collect.append(e)
+            raise
+        try:
+            _self, protein_groups, peptide_info_list, peptide_qval_cutoff, suppress = vals
+            rec = {"groups": [list(g) for g in protein_groups.protein_groups], "suppress": bool(suppress),
+                   "level": encf(peptide_qval_cutoff),
+                   "pil": [[p, encf(s), list(pr)] for p, (s, pr) in peptide_info_list.items()]}
+        except Exception:  # noqa: BLE001 - the arguments could not be read: the call is "not observed"
+            unseen.append(1)
+            return ret
+        seen = last_seen(handed[n0:])
+        rec.update({"handed": seen, "ncalls": len(handed) - n0,
                     "cutoff": encf(getattr(self, "peptide_score_cutoff", float("nan"))), "evidence": _canon_evidence(ret)})
         calls.append(rec)
         return ret
 
     out = {}
+    unseen = []
     st0 = np.random.get_state()
     np.random.seed(1)
-    fdr_mod.calc_post_err_prob_cutoff = spy
+    fdr_mod.calc_post_err_prob_cutoff = cutoff_spy(orig_cut, handed)
     ProteinScoringStrategy.collect_peptide_scores_per_protein = collect
     try:
+        # expected refusals, by exception TYPE and by the STAGE they come out of (never by message text): out of a collect
+        # call = a peptide without a known protein (Exception) / without any protein under razor (IndexError); out of the
+        # rest of the run = nothing left to rank (ValueError / IndexError / Exception of the estimation stage)
         try:
             pgf.get_protein_group_results(pil, method_config=cfg, keep_all_proteins=bool(case["keepAll"]),
                                           protein_group_fdr_threshold=decf(case["thr"]), psm_fdr_cutoff=decf(case["level"]))
-        except ValueError as e:
-            if "not enough values to unpack" not in str(e):
-                raise
-            out["err"] = "no_ranked_groups"
-        except IndexError as e:
-            if "too many indices for array" not in str(e):
-                raise
-            out["err"] = "no_ranked_groups"
-        except Exception as e:
-            if type(e) is Exception and str(e).startswith("No proteins with scores found"):
-                out["err"] = "no_ranked_groups"
-            elif type(e) is Exception and str(e).startswith("Could not find any of the proteins"):
-                out["err"] = "unknown_protein"
+        except (ValueError, IndexError) as e:
+            if any(e is x for x in in_collect):
+                if not (isinstance(e, IndexError) and case["shared"] == "razor"):
+                    raise
+                out["err"] = "razor_no_proteins"
             else:
+                out["err"] = "no_ranked_groups"
+        except Exception as e:
+            if type(e) is not Exception:
                 raise
+            out["err"] = "unknown_protein" if any(e is x for x in in_collect) else "no_ranked_groups"
     finally:
         fdr_mod.calc_post_err_prob_cutoff = orig_cut
         ProteinScoringStrategy.collect_peptide_scores_per_protein = orig_collect
         np.random.set_state(st0)
     out["calls"] = calls
-    out["flags"] = [bool(cfg.score_type.use_shared_peptides), bool(cfg.score_type.use_razor)]
+    out["unseen_calls"] = len(unseen)
+    out["flags"] = [safe_flag(cfg.score_type, "use_shared_peptides"), safe_flag(cfg.score_type, "use_razor")]
     return out
 
 
@@ -446,8 +497,12 @@ def collect_views(groups, pil, call, resp, level):
     if "err" in call:
         iv = {"err": call["err"]}
     else:
-        iv = {"handed": None if call["handed"] is None else canon_list(call["handed"]), "cutoff": call["cutoff"],
-              "copies": _copies(groups, pil, call["evidence"])}
+        # `handed` / `calls`: what the wrapper of the module attribute fdr.calc_post_err_prob_cutoff saw while the call ran
+        # (None / 0 = not observed, e.g. the caller imported the function by name).  The property text does not fix how
+        # the callers reach the function or how often, so this is compared HERE, with what the model says (one call, this
+        # list), and not in the oracle (audit 3, C17-1).
+        iv = {"handed": None if call.get("handed") is None else canon_list(call["handed"]), "calls": call.get("ncalls"),
+              "cutoff": call["cutoff"], "copies": _copies(groups, pil, call["evidence"])}
     if resp is None:
         return iv, iv
     if "err" in resp or "proto_err" in resp:
@@ -456,16 +511,17 @@ def collect_views(groups, pil, call, resp, level):
     if near_tie(fin, level):
         return iv, iv
     known = {p for g in groups for p in g}
-    mv = {"handed": canon_list(resp["peps"]), "cutoff": rat(unrat(resp["cutoff"])),
+    mv = {"handed": canon_list(resp["peps"]), "calls": 1, "cutoff": rat(unrat(resp["cutoff"])),
           "copies": [c if all(q in known for q in pr) else None for c, (_p, _s, pr) in zip(resp["copies"], pil)]}
     return iv, mv
 
 
 def collect_oracle(call, level, where=""):
+    """the property on what the caller makes observable: the stored strategy.peptide_score_cutoff against the property's
+    cutoff of the returned evidence (the check's reading: one PEP per distinct target, non-NaN evidence peptide).  How the
+    caller reaches fdr.calc_post_err_prob_cutoff, and how often, is NOT judged here (collect_views)."""
     if "err" in call:
         return None
-    if call.get("handed") is None or call.get("ncalls") != 1:
-        return "%scollect_peptide_scores_per_protein called calc_post_err_prob_cutoff %r times" % (where, call.get("ncalls"))
     fin, _other = evidence_peps(call["evidence"])
     if near_tie(fin, level):
         return None
@@ -680,38 +736,40 @@ def _quant_once(case, paths, second, level):
     seen, handed = [], []
 
     class SpyColumn:
-        def append(self, protein_group_results, post_err_prob_cutoff):
-            seen.append(post_err_prob_cutoff)
+        def append(self, *a, **k):  # the columns' interface: append(protein_group_results, post_err_prob_cutoff)
+            seen.append(k["post_err_prob_cutoff"] if "post_err_prob_cutoff" in k else a[-1])
 
     class SpyWriter(writers.ProteinGroupsWriter):
         def get_columns(self):
             return [SpyColumn()]
 
-    orig_retain = wbase._retain_only_identified_precursors
+    orig_retain = getattr(wbase, "_retain_only_identified_precursors", None)  # private helper: observed if it exists
     orig_cut = fdr_mod.calc_post_err_prob_cutoff
 
-    def spy_retain(precursor_list, post_err_prob_cutoff, *a, **kw):
-        seen.append(post_err_prob_cutoff)
-        return orig_retain(precursor_list, post_err_prob_cutoff, *a, **kw)
+    def spy_retain(*a, **k):
+        vals = bound_values(orig_retain, a, k, 2)
+        try:
+            float(vals[1])
+            seen.append(vals[1])
+        except Exception:  # noqa: BLE001 - not a number / not readable: not observed here (the column still sees it)
+            pass
+        return orig_retain(*a, **k)
 
-    def spy_cut(peps, lvl):
-        peps = list(peps)
-        handed.append([encf(p) for p in peps])
-        return orig_cut(peps, lvl)
-
-    wbase._retain_only_identified_precursors = spy_retain
-    fdr_mod.calc_post_err_prob_cutoff = spy_cut
+    if orig_retain is not None:
+        wbase._retain_only_identified_precursors = spy_retain
+    fdr_mod.calc_post_err_prob_cutoff = cutoff_spy(orig_cut, handed)
     try:
         SpyWriter().append_quant_columns(results, post_err_probs, level)
     finally:
-        wbase._retain_only_identified_precursors = orig_retain
+        if orig_retain is not None:
+            wbase._retain_only_identified_precursors = orig_retain
         fdr_mod.calc_post_err_prob_cutoff = orig_cut
     vals = []
     for v in seen:
         r = encf(float(v))
         if r not in vals:
             vals.append(r)
-    return {"returned": returned, "handed": handed[-1] if handed else None, "ncalls": len(handed), "seen": vals,
+    return {"returned": returned, "handed": last_seen(handed), "ncalls": len(handed), "seen": vals,
             # a double, or an exact integer (pandas reads a DIA-NN PEP column holding only 0 / 1 as int64)
             "double": all(isinstance(v, (float, int)) or type(v).__name__.startswith("int") for v in seen)}
 
